@@ -173,6 +173,7 @@ fn gate_name(g: &str) -> &'static str {
         "ao" => "out",
         "bo" => "out",
         "at" => "o2",
+        "bi" => "in",       // the reverse direction of the a.out -- b.in connection
         _ => "?",
     }
 }
@@ -381,12 +382,18 @@ pub fn run_scenario_stop(cfg: &NetCfg, scripts: &Value, seed: u64, stop: &str) -
         let bo = track_gate(sim.gate("b", "out"));
         let ai = track_gate(sim.gate("a", "in"));
         bo.clone().connect(ai, None);
-        if cfg.topo == "T2" {
+        if cfg.topo == "T2" || cfg.topo == "T3" {
             let o2 = track_gate(sim.gate("a", "o2"));
             let ct = track_gate(sim.gate("c", "t"));
             let i2 = track_gate(sim.gate("b", "i2"));
-            o2.connect(ct.clone(), None);
-            ct.connect(i2, channel(cfg, "2"));
+            if cfg.topo == "T2" {
+                o2.connect(ct.clone(), None);
+                ct.connect(i2, channel(cfg, "2"));
+            } else {
+                // the channel lies before the transit gate
+                o2.connect(ct.clone(), channel(cfg, "2"));
+                ct.connect(i2, None);
+            }
         }
         // a ring of four transit gates (reference cycle among gates, never used for traffic)
         let (ra, rb, rc, rd) = (track_gate(sim.gate("a", "ring1")), track_gate(sim.gate("b", "ring1")), track_gate(sim.gate("b", "ring2")), track_gate(sim.gate("a", "ring2")));
